@@ -13,7 +13,8 @@ CHECKS = {
         text=("Generated histories of spawn/exit/reap/PID recycling (live or zombie, repeated), object creation (incl. the Popen path), interleaved queries and every signal / setter "
               "form are interpreted against the real psutil code over a simulated kernel that logs each delivered signal and setting with the incarnation that received it; after each "
               "action: a recycled or gone object must raise NoSuchProcess with nothing delivered, a live one gets exactly one delivery with exactly the requested value, and no kill() "
-              "with pid <= 0 ever occurs. A live tier kills real children with 16 signals. Search, not proof."),
+              "with pid <= 0 ever occurs. A live tier kills real children with 16 signals. Search, not proof."
+              " Histories also contain Process.wait(), open oneshot() blocks and the caller continuing as a forked worker on a recycled PID."),
         note=("Trusted: vlib/simk.py syscall model and delivery log, vlib/history.py. Reuse within one clock tick is documented as indistinguishable and not generated; what cpu_affinity([]) selects is left to C18."),
         design="DESIGN.md section 3 C01",
     ),
@@ -22,7 +23,8 @@ CHECKS = {
         technique="property-based testing (Hypothesis) of op-list histories incl. system clock steps over a simulated process table; all-pairs ==/hash/is_running invariant against ghost incarnation ids",
         text=("Generated histories of spawn/exit/reap/PID recycling, object creation at any point, system clock steps (the kernel's btime changes), boot_time(), create_time(), "
               "is_running(), process_iter(), str() and other calls are interpreted against the real code; after every step every pair of objects is compared (==, !=, hash) with "
-              "the ghost incarnation ids, hashes must never change, is_running() must equal 'own incarnation still in the table' and never come back to True. Search, not proof."),
+              "the ghost incarnation ids, hashes must never change, is_running() must equal 'own incarnation still in the table' and never come back to True. Search, not proof."
+              " Histories also contain Process.wait(), open oneshot() blocks and the caller continuing as a forked worker on a recycled PID."),
         note=("Trusted: vlib/simk.py, vlib/history.py. Reuse within one clock tick not generated; objects only for listed PIDs."),
         design="DESIGN.md section 3 C02",
     ),
@@ -32,7 +34,8 @@ CHECKS = {
         text=("For each generated process state every public query form (42, plus process_iter with attrs) is run fault-free to count its OS accesses, then exhaustively re-run with the "
               "process removed (atomically, and in the issue-2418 half-gone form) or zombified before each access and with each access pertaining to the process refused once; outcomes "
               "must be a well-formed value or the psutil exception the fault can explain, carrying the pid; after a vanish all queries are repeated on the same object; (deny, vanish) "
-              "pairs are sampled (quick) - single faults are exhaustive per state, states are sampled."),
+              "pairs are sampled (quick) - single faults are exhaustive per state, states are sampled."
+              " For children()/children(recursive=True) each child and grandchild is also removed before every access (the live object must still answer)."),
         note=("Trusted: vlib/simk.py procfs error model (ENOENT at open/readlink/listdir/stat, ESRCH at read, zombie behaviour re-probed on a live zombie every run) and its access log. "
               "Denials only at accesses pertaining to the process; a lone ENOENT on a live process is not injected."),
         design="DESIGN.md section 3 C03",
@@ -43,7 +46,8 @@ CHECKS = {
         text=("Generated histories interleave spawn/exit/reap/recycle/thread events with iterators that are created, advanced a few items, finished, closed or garbage-collected at any later "
               "point, complete passes with several attrs choices, cache_clear(), is_running() on cached objects, and pid_exists()/pids() over listed PIDs, TIDs, absent, negative and huge "
               "numbers. A reference model checks order, membership, completeness, object identity across clean passes, fresh objects after absence / clear / reuse detection, info keys and "
-              "convergence. Two recorded known findings are excluded by construction and re-checked from their replay files. Search, not proof; no thread-level schedules."),
+              "convergence. Two recorded known findings are excluded by construction and re-checked from their replay files. Search, not proof; no thread-level schedules."
+              " Status files can be made unreadable (hidepid) so that pid_exists() takes its fallback path."),
         note=("Trusted: vlib/simk.py, vlib/history.py. A listed PID vanishing before its turn may be yielded or skipped; identity asserted only between passes during which no other iterator advanced."),
         design="DESIGN.md section 3 C04",
     ),
@@ -61,7 +65,8 @@ CHECKS = {
         technique="property-based testing (Hypothesis): generated kernel records -> model round-trip oracle over a simulated procfs",
         text=("Generated stat/status/task records (hostile names, counters to 2^64-1, old-kernel layouts, 1..n threads) "
               "are served to the real psutil code through an interposed file layer; each listed method must return the model value. "
-              "Search, not proof: bounded by the case counts in evidence."),
+              "Search, not proof: bounded by the case counts in evidence."
+              " A third of the cases run right after another generated case in the same interpreter with only psutil's documented cross-call state reset (answers may not depend on what was observed before)."),
         note=("Trusted: vlib/simk.py renderers (calibrated every run against live /proc/self/{stat,status} and live threads renamed "
               "with prctl), Hypothesis. Names are NUL-free and <= 15 bytes; kernels other than the sandbox's are modelled from proc(5)."),
         design="DESIGN.md section 3 C06",
@@ -71,7 +76,8 @@ CHECKS = {
         technique="property-based testing (Hypothesis): generated /proc/stat snapshot programs from 1-3 threads under virtual time -> exact-rational reference",
         text=("Programs of snapshot changes (zero, sub-tick, huge and negative deltas; 7-10 fields; non-contiguous CPUs) and calls in every blocking/non-blocking/percpu form from "
               "1-3 persistent threads are run against the real code with a simulated /proc/stat and virtual sleep; every result is compared with an exact-rational model that "
-              "tracks each thread's previous sample per API family. Process.cpu_percent is checked under a virtual monotonic clock. Search, not proof; thread interleaving is at call granularity."),
+              "tracks each thread's previous sample per API family. Process.cpu_percent is checked under a virtual monotonic clock. Search, not proof; thread interleaving is at call granularity."
+              " Between two Process.cpu_percent() samples the children's and block-I/O tick counters grow as well."),
         note=("Trusted: vlib/simk.py (file layer, virtual time). Counters <= 2^40 ticks; CPU set constant within a program; a thread's first non-blocking call only range-checked."),
         design="DESIGN.md section 3 C07",
     ),
@@ -80,7 +86,8 @@ CHECKS = {
         technique="property-based testing (Hypothesis): generated meminfo/vmstat/zoneinfo -> independent integer re-statement of the documented formulas",
         text=("Generated /proc/meminfo, /proc/vmstat and /proc/zoneinfo contents (any subset of optional fields, container-distorted magnitudes, zero totals) "
               "are parsed by the real code; every field, the percent rounding, the clamps, the watermark fallback and the warning text are compared with an independent model. "
-              "Search, not proof."),
+              "Search, not proof."
+              " A third of the cases run right after another generated case in the same interpreter with only psutil's documented cross-call state reset (answers may not depend on what was observed before)."),
         note=("Trusted: vlib/simk.py file layer, the model's reading of kernel commit 34e431b0ae; meminfo renderer calibrated byte-exactly against the live file. "
               "Values <= 2^50 kB; no blank meminfo lines."),
         design="DESIGN.md section 3 C08",
@@ -90,7 +97,8 @@ CHECKS = {
         technique="property-based testing (Hypothesis): generated net/dev, diskstats, sysfs block tree and statvfs tuples -> column-table oracle from proc(5)/iostats.txt",
         text=("Generated device tables in every supported line layout are decoded by the real code and compared per device and in total (whole disks only) with column tables "
               "written from the kernel documentation; disk_usage arithmetic is checked on generated statvfs tuples. One recorded known finding (Linux 2.4 15-field layout) is "
-              "excluded from the search and re-checked from its replay file. Search, not proof."),
+              "excluded from the search and re-checked from its replay file. Search, not proof."
+              " A third of the cases run right after another generated case in the same interpreter with only psutil's documented cross-call state reset (answers may not depend on what was observed before)."),
         note=("Trusted: vlib/simk.py file layer, proc(5)/iostats.txt column meanings. statvfs tuples satisfy bavail <= bfree <= blocks; unique device names."),
         design="DESIGN.md section 3 C09",
     ),
@@ -101,7 +109,8 @@ CHECKS = {
               "and cache_clear() calls run against the real parsers and wrap cache over simulated /proc files; every returned value is compared with a reference model of the statement "
               "and checked for monotonicity. One recorded known finding (perdisk alternation) is excluded by construction. A second tier ENUMERATES every two-thread schedule "
               "of the form (thread A runs k source lines, raw counters grow, thread B completes, A completes) with the vlib.detsched line-level scheduler and requires values that existed "
-              "during the calls and no inflation afterwards. Search, not proof, outside that schedule family."),
+              "during the calls and no inflation afterwards. Search, not proof, outside that schedule family."
+              " All two-thread line-level schedules with one pre-emption are enumerated for both functions."),
         note=("Trusted: vlib/simk.py file layer, c09 renderers. Presence of a device is observed at nowrap=True calls that return it."),
         design="DESIGN.md section 3 C10",
     ),
@@ -110,7 +119,8 @@ CHECKS = {
         technique="property-based testing (Hypothesis): generated /proc/net socket tables and holder processes -> set comparison with a model using inet_ntop on network-order bytes",
         text=("Generated TCP/UDP/UNIX socket tables (arbitrary and special addresses, port 0, all TCP states, UNIX paths with spaces and abstract names, odd short lines) with 0-4 holders "
               "per socket across readable and unreadable processes are parsed by the real code for one of the 11 kinds per case, system-wide and per-process; rows are compared as sets "
-              "with the model; invalid kinds must raise ValueError. Search, not proof."),
+              "with the model; invalid kinds must raise ValueError. Search, not proof."
+              " A third of the cases run right after another generated case in the same interpreter with only psutil's documented cross-call state reset (answers may not depend on what was observed before)."),
         note=("Trusted: vlib/simk.py, the /proc/net renderers (calibrated each run against live loopback IPv4/IPv6/UNIX sockets). Socket tuples unique per table; any visible holder accepted for inet sockets."),
         design="DESIGN.md section 3 C11",
     ),
@@ -119,7 +129,8 @@ CHECKS = {
         technique="property-based testing (Hypothesis): generated argv/title/environ blobs, link targets and (comm, argv[0]) pairs -> inverse-of-renderer oracle over a simulated procfs",
         text=("Generated cmdline blobs (argv with empty args/spaces/non-UTF-8, rewritten titles), environment blocks, exe/cwd link targets (NUL garbage, ' (deleted)', withheld), "
               "exe() fallback candidates and 15-byte names (multi-byte, cut inside a character) are served to the real code; each public method is compared with the inverse of the "
-              "kernel's rendering; exe() caching is checked by counting OS accesses of the second call. Search, not proof."),
+              "kernel's rendering; exe() caching is checked by counting OS accesses of the second call. Search, not proof."
+              " A third of the cases run right after another generated case in the same interpreter with only psutil's documented cross-call state reset (answers may not depend on what was observed before)."),
         note=("Trusted: vlib/simk.py process files and stat/access model. A single NUL-terminated argument containing spaces is accepted either way (documented ambiguity); "
               "environment entries starting with '=' are crash-freedom only."),
         design="DESIGN.md section 3 C12",
@@ -129,7 +140,8 @@ CHECKS = {
         technique="property-based testing (Hypothesis): generated statm / smaps / smaps_rollup records -> sums over the model mappings, roll-up vs per-mapping differential",
         text=("Generated statm tuples and smaps listings (repeated paths, paths with spaces/colons/' (deleted)', optional and non-kB lines, values to 2^40 kB, old-kernel line sets) with the "
               "roll-up file present or failing are parsed by the real code; memory_info, memory_full_info (both sources), memory_maps (both forms, conservation of sums) and memory_percent "
-              "are compared with the model. Search, not proof."),
+              "are compared with the model. Search, not proof."
+              " A third of the cases run right after another generated case in the same interpreter with only psutil's documented cross-call state reset (answers may not depend on what was observed before)."),
         note=("Trusted: vlib/simk.py smaps/statm renderers, calibrated byte-exactly against the live /proc/self/smaps each run. The roll-up holds exact sums; all mappings of a process print the same set of lines."),
         design="DESIGN.md section 3 C13",
     ),
@@ -138,7 +150,8 @@ CHECKS = {
         technique="property-based testing (Hypothesis): generated descriptor tables, fd-close faults at generated access indices and /proc/pid/io contents -> model table; live differential vs lseek/F_GETFL",
         text=("Generated fd tables of every target kind with offsets to 2^63 and access mode 0-3 x flag subsets, descriptors closing just before a generated OS access of the scan, and io files "
               "with blank/malformed/unknown lines are scanned by the real code over a simulated procfs; open_files/num_fds/io_counters are compared with the model. A live tier opens real "
-              "descriptors with 36 flag combinations. Search, not proof."),
+              "descriptors with 36 flag combinations. Search, not proof."
+              " A third of the cases run right after another generated case in the same interpreter with only psutil's documented cross-call state reset (answers may not depend on what was observed before)."),
         note=("Trusted: vlib/simk.py fd/fdinfo/io files and fault plan; for access mode 3 any mode string is accepted; a descriptor closing mid-scan may or may not be listed."),
         design="DESIGN.md section 3 C14",
     ),
@@ -170,7 +183,8 @@ CHECKS = {
         text=("The C extension is rebuilt with AddressSanitizer and UBSan (no recovery) and driven in child processes that journal each case before running it. Generated: arguments of any size, "
               "sign and type (incl. hostile sequences) to all entry points and the public wrappers; utmp files with full-width unterminated fields, every record type, partial records; mounts and "
               "filesystems files with escapes, comments, short lines, hundreds of entries and 70 kB names; the live interface list. Oracles: no sanitizer report / abnormal exit; users() equals an "
-              "independent struct decoding; disk_partitions() equals an independent getmntent(3) model and the documented filter; interfaces agree with /sys/class/net and /proc/net/if_inet6. Search, not proof."),
+              "independent struct decoding; disk_partitions() equals an independent getmntent(3) model and the documented filter; interfaces agree with /sys/class/net and /proc/net/if_inet6. Search, not proof."
+              " Mount lines of 0.6-1.9 kB are compared with the model, longer ones are crash-only."),
         note=("Trusted: gcc 12 sanitizer runtimes, the struct decoder and getmntent model in props/c17_cext.py. Coverage-guided byte fuzzing not used (scalar entry points, format-aware records instead); "
               "lines over 2000 bytes are crash-only; MAC formatting sees only the sandbox NICs."),
         design="DESIGN.md section 3 C17",
@@ -181,7 +195,8 @@ CHECKS = {
         text=("Generated sequences of nice / ionice / cpu_affinity / rlimit requests (full valid grids and the invalid values around them) are applied through psutil to a real child; before "
               "and after every request the kernel is read through os.getpriority, a raw ioprio_get syscall, os.sched_getaffinity and resource.prlimit for the child, a bystander and the "
               "harness: get == kernel, successful set == exactly the request, invalid requests raise ValueError and change nothing, nobody else changes, cpu_affinity([]) yields the "
-              "all-ones mask. A simulated tier repeats the requests over 7 Cpus_allowed_list shapes with a cpuset model. Search, not proof."),
+              "all-ones mask. A simulated tier repeats the requests over 7 Cpus_allowed_list shapes with a cpuset model. Search, not proof."
+              " The simulated tier varies the CPU count (1-128), hot-plugs CPUs between requests and precedes sequences with a cpu_affinity([]) made with fewer CPUs online."),
         note=("Trusted: the os/resource/ctypes read paths, vlib/simk.py. Runs as root in the sandbox; limits that would kill the child are offset to large values; a child that dies makes the case inconclusive; "
               "mixed existing/non-existing CPU lists are accepted either way."),
         design="DESIGN.md section 3 C18",
@@ -191,7 +206,8 @@ CHECKS = {
         technique="property-based testing (Hypothesis): generated /sys and /proc hardware trees -> statement arithmetic on the model tree",
         text=("Generated hwmon/thermal/power_supply/cpufreq/cpuinfo/stat/topology trees (both directory nestings, any subset of optional files, unreadable and non-numeric files, "
               "zero thresholds, alternative battery file families, AC adapters, offline CPUs, sysconf failing) are served through an interposed os/glob/open layer to the real code, "
-              "including the import-time sysfs variant of cpu_freq loaded as a second module copy; results are compared with the statement's arithmetic. Search, not proof."),
+              "including the import-time sysfs variant of cpu_freq loaded as a second module copy; results are compared with the statement's arithmetic. Search, not proof."
+              " A third of the cases run right after another generated case in the same interpreter with only psutil's documented cross-call state reset (answers may not depend on what was observed before)."),
         note=("Trusted: vlib/simk.py file/glob layer. The sandbox has no hwmon/thermal/battery/cpufreq, so there is no live tier; chip name files always present; fan inputs numeric; "
               "PYTHONHASHSEED fixed to 0 (set iteration order of trip points)."),
         design="DESIGN.md section 3 C19",
